@@ -4,6 +4,7 @@ package vc
 
 import (
 	"fmt"
+	"os"
 	"go/ast"
 	"go/constant"
 	"go/token"
@@ -49,6 +50,7 @@ type loopInfo struct {
 	ordinal int
 	mods    []string
 	phiNew  map[*ssa.Phi]TV
+	nBack   int
 }
 
 type frame struct {
@@ -361,7 +363,11 @@ func (fr *frame) zeroInit(st *State, t types.Type, ref string, depth int) {
 			s.setMap(st, name, ms, fmt.Sprintf("(store %s %s %s)", m, ref, zeroOf(so)))
 		}
 	case *types.Array:
-		s.note("%s: local array %s not modelled", FuncKey(fr.fn), t)
+		es := SortOf(u.Elem())
+		ms := "(Array Int " + mapSortOfElem(es) + ")"
+		name := ElemMapName(u.Elem())
+		m := s.getMap(st, name, ms)
+		s.setMap(st, name, ms, fmt.Sprintf("(store %s %s ((as const %s) %s))", m, ref, mapSortOfElem(es), zeroOf(es)))
 	default:
 		so := SortOf(t)
 		name := CellMapName(t)
@@ -431,6 +437,9 @@ func (fr *frame) prepareLoops() {
 				if _, isDbg := ins.(*ssa.DebugRef); isDbg {
 					continue
 				}
+				if _, isPhi := ins.(*ssa.Phi); isPhi {
+					continue // a phi carries the position of the variable's declaration
+				}
 				p := ins.Pos()
 				if p == token.NoPos {
 					continue
@@ -452,6 +461,9 @@ func (fr *frame) prepareLoops() {
 			}
 		}
 		li.ordinal = best + 1
+		if os.Getenv("GOVC_DEBUG") != "" {
+			fmt.Fprintf(os.Stderr, "loop header b%d of %s: ordinal %d (astLoops %d, min %v max %v)\n", li.header.Index, FuncKey(fn), li.ordinal, len(astLoops), fr.s.P.Fset.Position(minP), fr.s.P.Fset.Position(maxP))
+		}
 		// modifies set of the loop body
 		mods := map[string]bool{}
 		for b := range li.body {
@@ -799,10 +811,11 @@ func (fr *frame) backEdge(li *loopInfo, st *State, predIdx int) {
 		}
 		vals[p] = fr.val(p.Edges[predIdx], st)
 	}
+	li.nBack++
 	for _, c := range invs {
 		env := fr.loopEnv(li, st, vals)
 		g := s.evalBool(env, c.E)
-		s.addObl(&Obligation{Name: fmt.Sprintf("%s#loop%d:preserved:%s", shortKey(FuncKey(s.Top)), li.ordinal, c.Label), Props: fr.propsOf(c), Kind: "loop-preserved", Label: c.Label, Goal: fmt.Sprintf("(=> %s %s)", st.Guard, g), Src: c.Src})
+		s.addObl(&Obligation{Name: fmt.Sprintf("%s#loop%d:preserved:%s@%d", shortKey(FuncKey(s.Top)), li.ordinal, c.Label, li.nBack), Props: fr.propsOf(c), Kind: "loop-preserved", Label: c.Label, Goal: fmt.Sprintf("(=> %s %s)", st.Guard, g), Src: c.Src})
 	}
 }
 
@@ -824,9 +837,64 @@ func (fr *frame) loopEnv(li *loopInfo, st *State, phiVals map[*ssa.Phi]TV) *Env 
 				}
 			}
 		}
-		return fr.lookupLocal(name, li.header, st)
+		if v, ok := fr.lookupLocal(name, li.header, st); ok {
+			return v, true
+		}
+		// renamed local: if exactly one loop-carried variable is not mentioned by any
+		// invariant of this loop, the unresolved name is bound to it
+		used := map[string]bool{}
+		for _, c := range fr.invariants(li) {
+			identsOf(c.E, used)
+		}
+		var cand []TV
+		for p, v := range phiVals {
+			if p.Comment != "rangeindex" && p.Comment != "" && !used[p.Comment] {
+				cand = append(cand, v)
+			}
+		}
+		if len(cand) == 1 {
+			fr.s.note("%s: invariant variable %s not found; bound to the only unmentioned loop-carried variable", FuncKey(fr.fn), name)
+			return cand[0], true
+		}
+		return TV{}, false
 	}
 	return env
+}
+
+func identsOf(e Expr, out map[string]bool) {
+	switch x := e.(type) {
+	case EIdent:
+		out[x.Name] = true
+	case EUn:
+		identsOf(x.X, out)
+	case EBin:
+		identsOf(x.X, out)
+		identsOf(x.Y, out)
+	case ECond:
+		identsOf(x.C, out)
+		identsOf(x.A, out)
+		identsOf(x.B, out)
+	case EField:
+		identsOf(x.X, out)
+	case EIndex:
+		identsOf(x.X, out)
+		identsOf(x.I, out)
+	case ESlice:
+		identsOf(x.X, out)
+	case ECall:
+		if x.Recv != nil {
+			identsOf(x.Recv, out)
+		}
+		for _, a := range x.Args {
+			identsOf(a, out)
+		}
+	case EOld:
+		identsOf(x.X, out)
+	case EAssert:
+		identsOf(x.X, out)
+	case EQuant:
+		identsOf(x.Body, out)
+	}
 }
 
 // lookupLocal resolves a source-level variable name at a program point via DebugRef.
